@@ -17,7 +17,26 @@ import (
 	log "github.com/sirupsen/logrus"
 
 	"verifharness/internal/core"
+	_ "verifharness/internal/c01"
+	_ "verifharness/internal/c02"
+	_ "verifharness/internal/c03"
+	_ "verifharness/internal/c04"
+	_ "verifharness/internal/c05"
+	_ "verifharness/internal/c06"
+	_ "verifharness/internal/c07"
+	_ "verifharness/internal/c08"
+	_ "verifharness/internal/c09"
+	_ "verifharness/internal/c10"
+	_ "verifharness/internal/c11"
 	_ "verifharness/internal/c12"
+	_ "verifharness/internal/c13"
+	_ "verifharness/internal/c14"
+	_ "verifharness/internal/c15"
+	_ "verifharness/internal/c16"
+	_ "verifharness/internal/c17"
+	_ "verifharness/internal/c18"
+	_ "verifharness/internal/c19"
+	_ "verifharness/internal/c20"
 	_ "verifharness/internal/shimcore"
 )
 
